@@ -360,6 +360,12 @@ func (pr *poolRun) apply(op poolOp) {
 		}
 		pr.observe(true)
 		pr.protect = ""
+	case "mark-own-batch":
+		if int(op.Arg) < len(pr.batches) {
+			pr.pool.MarkBatched(pr.batches[op.Arg])
+			pr.stats["own_batches_marked_again"]++
+		}
+		pr.observe(false)
 	case "evict":
 		d := 1000 * time.Hour
 		if op.Arg < 0 {
@@ -501,6 +507,11 @@ func (pr *poolRun) gen(r *rand.Rand, nAcct int, ts *int64, known map[string]stri
 		if pr.m.Next(addr) > base {
 			op.Note = "commit-foreign-over-own-batch"
 		}
+	case x < 54 && len(pr.batches) > 0 && r.Intn(2) == 0:
+		// the node applies a block it has cut itself: every replica, the leader included, is told that the
+		// block's transactions are batched (they already are, here)
+		op.Op, op.Note = "mark-own-batch", "mark-own-batch"
+		op.Arg = int64(r.Intn(len(pr.batches)))
 	case x < 54:
 		op.Op = "minted"
 		for _, a := range pr.m.Accounts() {
